@@ -317,7 +317,25 @@ def gen_case(rng, dens=None):
                 put(f, _p, 'x')
     if not doc['blueprint']:
         del doc['blueprint']
-    return {'platform': platform, 'stage': 0, 'name': 'c', 'doc': doc, 'files': files, 'inj': inj}
+    stage = 0
+    if rng.random() < 0.4:
+        # the component under test lives in the LATER stage (and the bystander in the earlier one): swap the
+        # stage keys everywhere, so that leaks from an earlier stage into a later one are observable too
+        stage = 1
+
+        def swap(d):
+            if isinstance(d, dict) and isinstance(d.get('stages'), dict):
+                st = d['stages']
+                d['stages'] = {(1 - k if k in (0, 1) else k): v for k, v in st.items()}
+        for field in ('blueprint', 'variables'):
+            for P in doc.get(field, {}):
+                swap(doc[field][P])
+        for f in files:
+            swap(f)
+        for c in doc['components']:
+            c['stage'] = 1 - c['stage']
+        doc['components'].sort(key=lambda c: c['stage'])
+    return {'platform': platform, 'stage': stage, 'name': 'c', 'doc': doc, 'files': files, 'inj': inj}
 
 
 def strip_foreign(case):
